@@ -357,3 +357,119 @@ Proof.
   - right. clear IHr. rewrite app_assoc in E. apply app_inj_tail in E. destruct E as [E1 E2]. subst.
     exists r. auto.
 Qed.
+
+Lemma kcount_aset_old (V : Type) (vp : V -> bool) k v v0 m : alookup str_eqb k m = Some v0 ->
+  kcount_p V vp (aset str_eqb k v m) + (if vp v0 then 1 else 0) = kcount_p V vp m + (if vp v then 1 else 0).
+Proof.
+  induction m as [|[k' v'] m IH]; cbn [aset alookup]; [discriminate|].
+  destruct (str_eqb k k') eqn:E.
+  - intros [= ->]. unfold kcount_p. cbn [filter snd]. destruct (vp v), (vp v0); cbn [length]; lia.
+  - intros H. specialize (IH H). unfold kcount_p in *. cbn [filter snd]. destruct (vp v'); cbn [length]; lia.
+Qed.
+
+Lemma app_eq_comparable (A : Type) (a b x y : list A) : a ++ x = b ++ y ->
+  (exists z, a = b ++ z) \/ (exists z, b = a ++ z).
+Proof.
+  revert b. induction a as [|u a IH]; intros b E.
+  - right. exists b. reflexivity.
+  - destruct b as [|w b]; [left; exists (u :: a); reflexivity|].
+    cbn [app] in E. inversion E; subst. destruct (IH b H1) as [[z ->]|[z ->]]; [left|right]; exists z; reflexivity.
+Qed.
+
+(* ---- renaming the keys of a map ---------------------------------------------------------- *)
+Section MapKey.
+  Variable V : Type.
+  Variable g : str -> str.
+  Definition mapk (m : list (str * V)) : list (str * V) := map (fun e => (g (fst e), snd e)) m.
+
+  Lemma mapk_keys m : map fst (mapk m) = map g (map fst m).
+  Proof. unfold mapk. rewrite !map_map. reflexivity. Qed.
+
+  Lemma al_mapk_notin m k' : (forall k, In k (map fst m) -> g k <> k') -> alookup str_eqb k' (mapk m) = None.
+  Proof.
+    induction m as [|[k0 v0] m IH]; cbn [mapk map alookup fst snd]; [reflexivity|].
+    intros H. destruct (str_eqb_spec k' (g k0)) as [->|_].
+    - exfalso. apply (H k0); [left; reflexivity|reflexivity].
+    - apply IH. intros k Hk. apply H. right. exact Hk.
+  Qed.
+
+  Lemma al_mapk_in m k : NoDup (map fst m) ->
+    (forall k1 k2, In k1 (map fst m) -> In k2 (map fst m) -> g k1 = g k2 -> k1 = k2) ->
+    In k (map fst m) -> alookup str_eqb (g k) (mapk m) = alookup str_eqb k m.
+  Proof.
+    induction m as [|[k0 v0] m IH]; cbn [mapk map alookup fst snd]; [intros _ _ []|].
+    intros Hnd Hinj Hk. inversion Hnd as [|? ? Hni Hnd']; subst.
+    destruct (str_eqb_spec (g k) (g k0)) as [E|Hne].
+    - assert (k = k0) by (apply Hinj; [exact Hk|left; reflexivity|exact E]). subst. rewrite str_eqb_refl. reflexivity.
+    - destruct (str_eqb_spec k k0) as [->|Hkk]; [congruence|].
+      destruct Hk as [Hk|Hk]; [congruence|].
+      apply IH; [exact Hnd'| |exact Hk]. intros k1 k2 H1 H2. apply Hinj; right; assumption.
+  Qed.
+
+  Lemma nodup_mapk m : NoDup (map fst m) ->
+    (forall k1 k2, In k1 (map fst m) -> In k2 (map fst m) -> g k1 = g k2 -> k1 = k2) ->
+    NoDup (map fst (mapk m)).
+  Proof.
+    rewrite mapk_keys. induction (map fst m) as [|a l IH]; cbn [map]; [constructor|].
+    intros Hnd Hinj. inversion Hnd as [|? ? Ha Hl]; subst. constructor.
+    - intros H. apply in_map_iff in H. destruct H as (b & Hb & Hbl).
+      assert (b = a) by (apply Hinj; [right; exact Hbl|left; reflexivity|exact Hb]). subst. exact (Ha Hbl).
+    - apply IH; [exact Hl|]. intros k1 k2 H1 H2. apply Hinj; right; assumption.
+  Qed.
+
+  Lemma kcount_mapk vp m : kcount_p V vp (mapk m) = kcount_p V vp m.
+  Proof.
+    unfold kcount_p, mapk. induction m as [|[k v] m IH]; cbn [map filter fst snd]; [reflexivity|].
+    destruct (vp v); cbn [length]; rewrite IH; reflexivity.
+  Qed.
+
+  Lemma al_mapk_some m k' v : alookup str_eqb k' (mapk m) = Some v -> exists k, g k = k' /\ In (k, v) m.
+  Proof.
+    induction m as [|[k0 v0] m IH]; cbn [mapk map alookup fst snd]; [discriminate|].
+    destruct (str_eqb_spec k' (g k0)) as [->|_].
+    - intros [= ->]. exists k0. split; [reflexivity|left; reflexivity].
+    - intros H. destruct (IH H) as (k & Hk & Hin). exists k. split; [exact Hk|right; exact Hin].
+  Qed.
+End MapKey.
+
+Lemma in_keys_al (V : Type) k (m : list (str * V)) : In k (map fst m) <-> alookup str_eqb k m <> None.
+Proof.
+  split.
+  - intros H E. apply al_none_notin in E. exact (E H).
+  - intros H. destruct (alookup str_eqb k m) as [v|] eqn:E; [|congruence].
+    apply al_in in E. apply in_map_iff. exists (k, v). auto.
+Qed.
+
+(* the key function of Rename's re-keying *)
+Definition rekey_fn (o_abs n_abs : str) (k : str) : str :=
+  if is_prefix (o_abs ++ [SLASH]) k then n_abs ++ skipn (length o_abs) k else k.
+
+Lemma o_rekey_mapk o_abs n_abs idx : o_rekey Linux o_abs n_abs idx = mapk nat (rekey_fn o_abs n_abs) idx.
+Proof.
+  unfold o_rekey, mapk, rekey_fn. apply map_ext. intros [k v]. cbn [fst snd sepc].
+  destruct (is_prefix (o_abs ++ [SLASH]) k); reflexivity.
+Qed.
+
+Lemma rekey_fn_below old new c r : Forall comp_ok old -> Forall comp_ok (c :: r) ->
+  rekey_fn (rpath old) (rpath new) (rpath (old ++ c :: r)) = rpath (new ++ c :: r).
+Proof.
+  intros Ho Hr. unfold rekey_fn.
+  assert (H : is_prefix (rpath old ++ [SLASH]) (rpath (old ++ c :: r)) = true).
+  { apply is_prefix_rpath; [exact Ho|apply Forall_app; auto|]. exists c, r. reflexivity. }
+  rewrite H. rewrite skipn_rpath_app. rewrite rpath_app. reflexivity.
+Qed.
+
+Lemma rekey_fn_other old new cs : Forall comp_ok old -> Forall comp_ok cs ->
+  (forall c r, cs <> old ++ c :: r) -> rekey_fn (rpath old) (rpath new) (rpath cs) = rpath cs.
+Proof.
+  intros Ho Hc Hn. unfold rekey_fn.
+  destruct (is_prefix (rpath old ++ [SLASH]) (rpath cs)) eqn:E; [|reflexivity].
+  apply is_prefix_rpath in E; [|exact Ho|exact Hc]. destruct E as (c & r & E). exfalso. exact (Hn c r E).
+Qed.
+
+Lemma rekey_fn_slash old new : old <> [] -> Forall comp_ok old -> rekey_fn (rpath old) (rpath new) [SLASH] = [SLASH].
+Proof.
+  intros Hne Ho. unfold rekey_fn. destruct old as [|o old]; [congruence|].
+  inversion Ho as [|? ? [Hc _] _]; subst. destruct o as [|x o]; [congruence|].
+  cbn [rpath app is_prefix]. rewrite N.eqb_refl. cbn [andb]. reflexivity.
+Qed.
